@@ -95,11 +95,41 @@ def site(b, bb, where=None):
     return b.term(bb)["span"]
 
 
+_ROLE_CACHE = {}
+
+
+def closure_role(b):
+    """content-based name of a closure (positional indices must not be part of a key): the variants of
+    crate-local enums/structs it constructs and the crate-local functions it calls, sorted, first four."""
+    k = (id(b.facts), b.id)
+    if k in _ROLE_CACHE:
+        return _ROLE_CACHE[k]
+    items = set()
+    for bb in b.reachable():
+        for st in b.stmts(bb):
+            rv = st.get("rv") or {}
+            if rv.get("agg") == "adt" and rv.get("adt") in b.facts.adts and not rv["adt"].startswith("std::"):
+                nm = rv.get("variant") or rv["adt"].split("::")[-1]
+                if nm not in ("Ok", "Err", "Some", "None"):
+                    items.add("+" + nm)
+        t = b.term(bb)
+        if t["k"] == "call":
+            c = t.get("callee") or {}
+            if c.get("local") or c.get("resolved_local"):
+                m = c.get("method") or c.get("def", "").split("::")[-1]
+                if m not in ("deref", "deref_mut", "clone", "default", "new", "new_styled", "from", "nop"):
+                    items.add(m)
+    role = ",".join(sorted(items)[:4])
+    _ROLE_CACHE[k] = role
+    return role
+
+
 def fn_key(b):
-    """stable function key: closures are named by their root function (indices are positional
-    and must not be part of a key)."""
+    """stable function key: closures are named by their root function plus a content-based role
+    (closure indices are positional and must not be part of a key)."""
     if b.kind == "Closure":
-        return b.root + "::{closure}"
+        r = closure_role(b)
+        return b.root + "::{closure" + (":" + r if r else "") + "}"
     return b.id
 
 
